@@ -8,13 +8,19 @@ EXTENDS PairVerify, Json, IOUtils, SequencesExt
 Rate == atoi(IOEnv.RATE)
 Seed == atoi(IOEnv.SEED)
 
+\* the complete M2 of the recorded earlier exchange sent again (always exported: it is also replayed from a real
+\* earlier exchange of the same process)
+IsRecorded(r) == /\ r.pub = "eA0" /\ r.enc = "sub" /\ r.key = "I0_A0" /\ r.nonce = "PV-Msg02" /\ r.id = "AccId" /\ r.sigp
+                 /\ r.signer = "accLT" /\ r.tr = "old" /\ r.corrupt = "none" /\ r.layout = "canon" /\ r.cut = 0
+                 /\ r.method = "absent" /\ r.sid = "absent"
+
 M4For(r) == IF M2Result(r) = <<"m3">> THEN M4Space ELSE {"ok"}
 
 Case(r, m) ==
     LET v == Verdict(r, m)
         w == Wire(r) IN
     [r |-> r, m4 |-> m, resume |-> WithResume, verdict |-> v.v, stage |-> v.stage, m3 |-> v.m3,
-     derivable |-> Derivable(r), honest |-> r \in {Honest, HonestResume}, dist |-> Dist(r),
+     derivable |-> Derivable(r), honest |-> r \in {Honest, HonestResume}, dist |-> Dist(r), recorded |-> IsRecorded(r),
      wire |-> [k \in 1..Len(w) |-> <<w[k].t, w[k].role>>], partial |-> CutPartial(r)]
 
 HeadSeq == SetToSeq(Heads)
@@ -29,7 +35,7 @@ Picked(hi, pi, ei, mi, ti, si) == Rate = 1 \/ (hi * 131 + pi * 37 + ei * 7 + mi 
 Part(hi, pi) ==
     { c \in { <<Mk(HeadSeq[hi], PubSeq[pi], EncSeq[ei], ModSeq[mi], MethSeq[ti], SidSeq[si]), Picked(hi, pi, ei, mi, ti, si)>> :
                ei \in DOMAIN EncSeq, mi \in DOMAIN ModSeq, ti \in DOMAIN MethSeq, si \in DOMAIN SidSeq } :
-      Valid(c[1]) /\ (c[2] \/ Dist(c[1]) <= 2) }
+      Valid(c[1]) /\ (c[2] \/ Dist(c[1]) <= 2 \/ IsRecorded(c[1])) }
 ExportCases ==
     /\ TLCGet("stats").generated >= 0
     /\ \A hi \in DOMAIN HeadSeq : \A pi \in DOMAIN PubSeq :
